@@ -213,7 +213,7 @@ def stepBackend (st : SuiteState) (toks : List String) : SuiteState × String :=
       | r => writeLine "delete" r
     ({ st with b := b }, line)
   | ["get", k, r] =>
-    let (hdr, kv) := doGet c st.b (unhx k) (atou r)
+    let (hdr, kv) := doGet c st.b (unhx k) (relRev st.b.committed r)
     (st, s!"get {hdr} {okvStr kv}")
   | ["list", a, b, r, lim] =>
     match doList c st.b (unhx a) (unhx b) (atou r) (atou lim) with
@@ -241,10 +241,10 @@ def stepBackend (st : SuiteState) (toks : List String) : SuiteState × String :=
     | .error e => (st, s!"stream err {errStr e}")
     | .panic => (st, "stream PANIC")
   | "echo" :: _ => (st, " ".intercalate toks)
-  | ["fill", n, p, v] =>
+  | ["bulk", n, p, v] =>
     match fillLoop c (unhx p) (unhx v) (atou n) 0 st.b with
-    | some b => ({ st with b := b }, s!"fill {b.dealt}")
-    | none => (st, "fill failed")
+    | some b => ({ st with b := b }, s!"bulk {b.dealt}")
+    | none => (st, "bulk failed")
   | ["arm", g] => (st, s!"arm {g}")
   | ["disarm", g] => (st, s!"disarm {g}")
   | ["await", "retry.step"] => (st, s!"await retry.step {if st.b.retryQ.isEmpty then 0 else 1}")
